@@ -14,8 +14,16 @@
 
    Conventions: a denom is identified with the id of the asset that carries it; accounts are
    integers (users > 0, the lend module "reserve" account = 0, pool module accounts = p_mod).
-   Not modelled (the generator never issues them / never enables them): ESM kill switch, pool
-   depreciation, FundModAcc, FundReserveAcc, RepayWithdraw, DeletePoolAndTransferInterest,
+   - of a generation-2 auction of a handed-over position: whether a market bid is accepted and whether
+     it closes the auction, the auction's target debt (checked against [target_of] by the runner), the
+     owner and the part of the seized collateral the closing bid returns to the owner (auction
+     internals, property C10's subject).
+   The ESM kill switch of an app (esm MsgKillSwitch) and the depreciation of a pool (governance
+   AddPoolDepreciateProposal) are state: the handlers' early returns on them are modelled in place.
+   Not modelled (the generator never issues them / never enables them):
+   DeletePoolAndTransferInterest (block hook that deletes pool records), the generation-1 liquidation / auction modules
+   (x/auction lend auctions and bids, x/liquidation UnLiquidateLockedBorrows, CreteNewBorrow, RemoveFaultyAuctions;
+   the generation-1 hand-over message x/liquidation MsgLiquidateBorrow IS modelled, with its sell-off amounts as ENV),
    sdk.Int 256-bit overflow of book totals (amounts are bank coins), Int64() conversions inside
    the rate arithmetic. *)
 From Comdex Require Import Lib.Base Lib.DecArith.
@@ -52,7 +60,8 @@ Record asset := mkAsset { a_id : Z; a_dec : Z }.
 Record poolasset := mkPA { pa_asset : Z; pa_transit : Z; pa_cap : Z }.          (* SupplyCap: Dec *)
 Record pool := mkPool { p_id : Z; p_mod : Z; p_assets : list poolasset }.
 Record pair := mkPair { pr_id : Z; pr_in : Z; pr_out : Z; pr_inter : bool; pr_out_pool : Z; pr_emode : bool }.
-Record rates := mkRates { r_asset : Z; r_ltv : Z; r_eltv : Z; r_casset : Z; r_stable : bool; r_isolated : bool }.
+Record rates := mkRates { r_asset : Z; r_ltv : Z; r_eltv : Z; r_casset : Z; r_stable : bool; r_isolated : bool;
+                          r_pen : Z; r_epen : Z }.                (* LiquidationPenalty, ELiquidationPenalty (Dec) *)
 Record config := mkCfg {
   c_assets : list (Z * asset);
   c_pools : list (Z * pool);
@@ -83,12 +92,18 @@ Record bank := mkBank { bal : list ((Z * Z) * Z); sup : list (Z * Z) }.
 Record state := mkSt {
   lends : list (Z * lendpos); borrows : list (Z * borrowpos); sstats : list ((Z * Z) * stats);
   bnk : bank; lctr : Z; bctr : Z;
-  prices : list (Z * Z) }.                              (* active Twa per asset; absent = no active price *)
+  prices : list (Z * Z);                                (* active Twa per asset; absent = no active price *)
+  killed : list Z;                                      (* apps whose ESM kill switch (BreakerEnable) is on *)
+  depr : list Z;                                        (* pool ids in the pool-depreciation records *)
+  v1 : list Z }.                                        (* borrow ids flagged by the GENERATION-1 liquidation (no generation-2 auction) *)
 
 Definition with_bank (st : state) (b : bank) : state :=
-  mkSt (lends st) (borrows st) (sstats st) b (lctr st) (bctr st) (prices st).
+  mkSt (lends st) (borrows st) (sstats st) b (lctr st) (bctr st) (prices st) (killed st) (depr st) (v1 st).
 Definition with_books (st : state) (L : list (Z * lendpos)) (B : list (Z * borrowpos)) (S : list ((Z * Z) * stats)) : state :=
-  mkSt L B S (bnk st) (lctr st) (bctr st) (prices st).
+  mkSt L B S (bnk st) (lctr st) (bctr st) (prices st) (killed st) (depr st) (v1 st).
+(* esm GetKillSwitchData(app).BreakerEnable and lend IsPoolDepreciated(pool): both early returns of the handlers *)
+Definition is_killed (st : state) (app : Z) : bool := existsb (Z.eqb app) (killed st).
+Definition is_depr (st : state) (poolid : Z) : bool := existsb (Z.eqb poolid) (depr st).
 
 Definition set_s_lend (s : stats) v := mkStats v (s_bor s) (s_sbor s) (s_tia s) (s_lids s) (s_bids s).
 Definition set_s_bor (s : stats) v := mkStats (s_lend s) v (s_sbor s) (s_tia s) (s_lids s) (s_bids s).
@@ -269,7 +284,9 @@ Definition isolated_blocked (st : state) (user asset : Z) : bool :=
 Definition deposit_asset (cfg : config) (st : state) (user lid denom amt ipb : Z) : outcome state :=
   match zget (lends st) lid with
   | None => Err 1
-  | Some _ =>
+  | Some l0 =>
+      if is_depr st (l_pool l0) then Err 31 else
+      if is_killed st (l_app l0) then Err 32 else
       st1 <- iterate_lends cfg st lid ipb ;;
       match zget (lends st1) lid with
       | None => Panic
@@ -300,6 +317,8 @@ Definition deposit_asset (cfg : config) (st : state) (user lid denom amt ipb : Z
   end.
 
 Definition lend_asset (cfg : config) (st : state) (user asset denom amt poolid app ipb : Z) : outcome state :=
+  if is_depr st poolid then Err 31 else
+  if is_killed st app then Err 32 else
   match zget (c_assets cfg) asset with
   | None => Err 5
   | Some a =>
@@ -336,7 +355,7 @@ Definition lend_asset (cfg : config) (st : state) (user asset denom amt poolid a
                 | None => Err 18
                 | Some s =>
                     Ok (mkSt (zset (lends st) id l) (borrows st) (pset S1 (poolid, asset) (set_s_lids s (s_lids s ++ [id])))
-                             b3 id (bctr st) (prices st))
+                             b3 id (bctr st) (prices st) (killed st) (depr st) (v1 st))
                 end
             end
         end
@@ -345,7 +364,8 @@ Definition lend_asset (cfg : config) (st : state) (user asset denom amt poolid a
 Definition close_lend (cfg : config) (st : state) (user lid ipb : Z) : outcome state :=
   match zget (lends st) lid with
   | None => Err 1
-  | Some _ =>
+  | Some l0 =>
+      if is_killed st (l_app l0) then Err 32 else
       st1 <- iterate_lends cfg st lid ipb ;;
       match zget (lends st1) lid with
       | None => Panic
@@ -383,6 +403,7 @@ Definition withdraw_asset (cfg : config) (st : state) (user lid denom amt ipb : 
   | None => Err 1
   | Some l0 =>
       if (amt =? l_avail l0) && (l_avail l0 >=? l_in l0) then close_lend cfg st user lid ipb else
+      if is_killed st (l_app l0) then Err 32 else
       st1 <- iterate_lends cfg st lid ipb ;;
       match zget (lends st1) lid with
       | None => Panic
@@ -434,6 +455,8 @@ Definition deposit_borrow_asset (cfg : config) (st : state) (bid user denom amt 
       match zget (lends st) (b_lend b0) with
       | None => Err 1
       | Some l =>
+          if is_depr st (l_pool l) then Err 31 else
+          if is_killed st (l_app l) then Err 32 else
           if negb (l_owner l =? user) then Err 3 else
           st1 <- iterate_borrow st bid e ;;
           match zget (borrows st1) bid with
@@ -508,6 +531,8 @@ Definition draw_asset (cfg : config) (st : state) (bid user denom amt : Z) (e : 
       match zget (lends st) (b_lend b0) with
       | None => Err 1
       | Some l =>
+          if is_depr st (l_pool l) then Err 31 else
+          if is_killed st (l_app l) then Err 32 else
           if negb (l_owner l =? user) then Err 3 else
           st1 <- iterate_borrow st bid e ;;
           match zget (borrows st1) bid with
@@ -556,6 +581,7 @@ Definition close_borrow (cfg : config) (st : state) (user bid : Z) (e : biter) :
       match zget (lends st) (b_lend b0) with
       | None => Err 1
       | Some l =>
+          if is_killed st (l_app l) then Err 32 else
           if negb (l_owner l =? user) then Err 3 else
           st1 <- iterate_borrow st bid e ;;
           match zget (borrows st1) bid with
@@ -616,6 +642,7 @@ Definition repay_asset (cfg : config) (st : state) (bid user denom pay : Z) (e :
       match zget (lends st) (b_lend b0) with
       | None => Err 1
       | Some l =>
+          if is_killed st (l_app l) then Err 32 else
           if negb (l_owner l =? user) then Err 3 else
           st1 <- iterate_borrow st bid e ;;
           match zget (borrows st1) bid with
@@ -676,7 +703,7 @@ Definition open_borrow (st : state) (bk : bank) (lid : Z) (l : lendpos) (pr : pa
   | Some s =>
       let l1 := upd_lend l (l_in l) (l_avail l - ain) (l_rewards l) (l_tracker l) (l_bids l ++ [id]) in
       Ok (mkSt (zset (lends st) lid l1) (zset (borrows st) id bp) (pset S1 k (set_s_bids s (s_bids s ++ [id])))
-               bk (lctr st) id (prices st))
+               bk (lctr st) id (prices st) (killed st) (depr st) (v1 st))
   end.
 
 Definition borrow_asset (cfg : config) (st : state) (user lid pid : Z) (stable : bool) (din ain dout aout : Z)
@@ -684,6 +711,8 @@ Definition borrow_asset (cfg : config) (st : state) (user lid pid : Z) (stable :
   match zget (lends st) lid with
   | None => Err 1
   | Some l =>
+  if is_depr st (l_pool l) then Err 31 else
+  if is_killed st (l_app l) then Err 32 else
   if negb (l_owner l =? user) then Err 3 else
   match zget (c_pairs cfg) pid with
   | None => Err 4
@@ -770,6 +799,8 @@ Definition borrow_asset (cfg : config) (st : state) (user lid pid : Z) (stable :
 
 Definition borrow_alternate (cfg : config) (st : state) (user asset poolid din ain pid : Z) (stable : bool)
            (dout aout app ipb : Z) (e1 e2 : biter) : outcome state :=
+  if is_killed st app then Err 32 else
+  if is_depr st poolid then Err 31 else
   match zget (c_assets cfg) asset with
   | None => Err 5
   | Some a =>
@@ -808,7 +839,7 @@ Definition borrow_alternate (cfg : config) (st : state) (user asset poolid din a
                 | None => Panic
                 | Some s =>
                     let st1 := mkSt (zset (lends st) id l) (borrows st) (pset S1 (poolid, asset) (set_s_lids s (s_lids s ++ [id])))
-                                    b3 id (bctr st) (prices st) in
+                                    b3 id (bctr st) (prices st) (killed st) (depr st) (v1 st) in
                     borrow_asset cfg st1 user id pid stable cden ain dout aout e1 e2
                 end
           end
@@ -824,6 +855,7 @@ Definition calc_borrow_interest (st : state) (user bid : Z) (e : biter) : outcom
       match zget (lends st) (b_lend b0) with
       | None => Err 1
       | Some l =>
+          if is_killed st (l_app l) then Err 32 else
           if negb (l_owner l =? user) then Err 3 else
           st1 <- iterate_borrow st bid e ;;
           match zget (borrows st1) bid with None => Err 9 | Some _ => Ok st1 end
@@ -832,7 +864,8 @@ Definition calc_borrow_interest (st : state) (user bid : Z) (e : biter) : outcom
 Definition calc_lend_rewards (cfg : config) (st : state) (user lid ipb : Z) : outcome state :=
   match zget (lends st) lid with
   | None => Err 1
-  | Some _ =>
+  | Some l0 =>
+      if is_killed st (l_app l0) then Err 32 else
       st1 <- iterate_lends cfg st lid ipb ;;
       match zget (lends st1) lid with
       | None => Panic
@@ -895,6 +928,7 @@ Definition hand_over (cfg : config) (st : state) (bid d dint : Z) : outcome stat
       match zget (lends st) (b_lend b0) with
       | None => Err 1
       | Some l =>
+          if is_killed st (l_app l) then Err 43 else         (* "kill Switch is enabled in Liquidation" *)
           if d =? 2 then Err 42 else if d =? 3 then Panic else
           if negb (d =? 1) then Ok st else
           match zget (c_pools cfg) (l_pool l), cdenom_of cfg (pr_in pr) with
@@ -920,6 +954,205 @@ Definition hand_over (cfg : config) (st : state) (bid d dint : Z) : outcome stat
       end end
   end.
 
+(* ---------- MsgRepayWithdraw: CloseBorrow, then WithdrawAsset of the released collateral ---------- *)
+(* RepayWithdraw reads the borrow record BEFORE the close (its AmountIn is the amount withdrawn) and the
+   lend record AFTER it (its AmountIn.Denom is the denom withdrawn); [ipb] is the Dec CalculateLendReward
+   returns inside that WithdrawAsset *)
+Definition repay_withdraw (cfg : config) (st : state) (user bid : Z) (e : biter) (ipb : Z) : outcome state :=
+  st1 <- close_borrow cfg st user bid e ;;
+  match zget (borrows st) bid with
+  | None => Panic                                             (* CloseBorrow fails on a missing record *)
+  | Some b0 =>
+      match zget (lends st1) (b_lend b0) with
+      | None => Panic                                         (* zero-value lend: empty denom, sdk.NewCoin panics *)
+      | Some l => withdraw_asset cfg st1 user (b_lend b0) (l_asset l) (b_in b0) ipb
+      end
+  end.
+
+(* ---------- MsgFundModuleAccounts (FundModAcc) / MsgFundReserveAccounts (FundReserveAcc) ---------- *)
+(* anybody may fund a pool: the coins go to the pool's module account FIRST (whatever their denom; a later
+   check fails the message and baseapp drops the transfer), cTokens of the asset are minted to the pool;
+   the FundModBal records are not projected.  No stats, no position changes. *)
+Definition fund_mod (cfg : config) (st : state) (user poolid asset denom amt : Z) : outcome state :=
+  match zget (c_pools cfg) poolid with
+  | None => Err 2
+  | Some pl =>
+      b1 <- send (bnk st) user (p_mod pl) denom amt ;;
+      match zget (c_assets cfg) asset with
+      | None => Err 1
+      | Some a =>
+          if negb (a_id a =? denom) then Err 7 else
+          match zget (c_rates cfg) asset with
+          | None => Err 6
+          | Some r =>
+              match zget (c_assets cfg) (r_casset r) with
+              | None => Err 5
+              | Some c => b2 <- mint b1 (p_mod pl) (a_id c) amt ;; Ok (with_bank st b2)
+              end
+          end
+      end
+  end.
+(* the reserve / buy-back / FundReserveBal records are not projected; RemoveFaultyAuctions walks the
+   generation-1 lend auctions of app 3, of which none exist (generation 1 is not modelled) *)
+Definition fund_reserve (cfg : config) (st : state) (user asset denom amt : Z) : outcome state :=
+  match zget (c_assets cfg) asset with
+  | None => Err 1
+  | Some a =>
+      if negb (a_id a =? denom) then Err 7 else
+      b1 <- send (bnk st) user RESERVE denom amt ;; Ok (with_bank st b1)
+  end.
+
+(* ---------- auctionsV2 PlaceDutchAuctionBid -> liquidationsV2 MsgCloseDutchAuctionForBorrow ---------- *)
+(* A generation-2 auction exists exactly for the positions that are flagged (created by the hand-over,
+   deleted together with the borrow record by the close).  A market bid that does not close the auction
+   moves coins between the bidder and the auction module account only (property C10's subject; both
+   accounts are outside the projection): nothing of the lend state changes. *)
+Definition auc_bid (st : state) (bid d : Z) : outcome state :=      (* d (ENV): 1 accepted, 2 panic, else rejected *)
+  match zget (borrows st) bid with
+  | None => Err 51
+  | Some b => if negb (b_liq b) || existsb (Z.eqb bid) (v1 st) then Err 51
+              else if d =? 1 then Ok st else if d =? 2 then Panic else Err 50
+  end.
+
+(* coins that arrive from an account whose ledger is not modelled (the debt coins the bidders paid into
+   the auction module account) *)
+Definition credit (b : bank) (to denom amt : Z) : outcome bank :=
+  if amt <? 0 then Panic
+  else if amt =? 0 then Ok b
+  else Ok (mkBank (pset (bal b) (to, denom) (balance b to denom + amt)) (sup b)).
+
+(* the liquidation penalty MsgCloseDutchAuctionForBorrow forwards to the reserve: recomputed at the close
+   from the asset-in rates, with the E-MODE penalty for an e-mode pair *)
+Definition close_penalty (cfg : config) (pr : pair) (b : borrowpos) : outcome Z :=
+  match zget (c_rates cfg) (pr_in pr) with
+  | None => Panic                                             (* zero-value params: nil Dec *)
+  | Some rin =>
+      match dmul_c (dec_of_int (b_out b)) (if pr_emode pr then r_epen rin else r_pen rin) with
+      | None => Panic
+      | Some x => Ok (dtrunc_int x)
+      end
+  end.
+(* the target debt the hand-over (UpdateLockedBorrows -> CreateLockedVault) gave the auction: principal +
+   principal x the ORDINARY liquidation penalty of the asset in; accrued interest is not part of it *)
+Definition target_of (cfg : config) (b : borrowpos) : option Z :=
+  match zget (c_pairs cfg) (b_pair b) with
+  | None => None
+  | Some pr =>
+      match zget (c_rates cfg) (pr_in pr) with
+      | None => None
+      | Some rin =>
+          match dmul_c (dec_of_int (b_out b)) (r_pen rin) with
+          | None => None
+          | Some x => Some (b_out b + dtrunc_int x)
+          end
+      end
+  end.
+
+(* the closing bid: [back] of the seized collateral goes from the auction module account to [owner]
+   (PlaceDutchAuctionBid, before the close), then MsgCloseDutchAuctionForBorrow as coded: the target debt
+   goes to the asset-out pool, penalty and reserve share of the interest from the pool to the reserve,
+   cTokens are minted for the rest of the interest (TotalInterestAccumulated), bridged transit coins go
+   back to the pool of the lend position (GetLend without a found check: a deleted lend record gives pool
+   id 0, module account "" and the bank keeper panics - finding C10-F7), the borrow record, its tracker
+   and its ids in the pool-asset stats and in the user mapping are deleted.  The lend position gets
+   nothing back (its AmountIn was reduced at the hand-over). *)
+Definition auc_close (cfg : config) (st : state) (bid target owner back : Z) : outcome state :=
+  match zget (borrows st) bid with
+  | None => Err 51
+  | Some b =>
+      if negb (b_liq b) || existsb (Z.eqb bid) (v1 st) then Err 51 else
+      match zget (c_pairs cfg) (b_pair b) with
+      | None => Panic
+      | Some pr =>
+      match zget (c_pools cfg) (pr_out_pool pr) with
+      | None => Panic                                         (* module account "" *)
+      | Some pout =>
+          let k := (pr_out_pool pr, pr_out pr) in
+          b0 <- send (bnk st) AUCTION owner (pr_in pr) back ;;
+          b1 <- credit b0 (p_mod pout) (pr_out pr) target ;;
+          pen <- close_penalty cfg pr b ;;
+          b2 <- send b1 (p_mod pout) RESERVE (pr_out pr) pen ;;
+          let tr := dtrunc_int (b_res b) in
+          b3 <- (if tr >? 0 then send b2 (p_mod pout) RESERVE (pr_out pr) tr else Ok b2) ;;
+          let tomint := dtrunc_int (b_int b - b_res b) in
+          b4 <- (if tomint >? 0 then
+                   match cdenom_of cfg (pr_out pr) with
+                   | None => Panic
+                   | Some cden => mint b3 (p_mod pout) cden tomint
+                   end
+                 else Ok b3) ;;
+          S0 <- (if tomint >? 0 then
+                   match pget (sstats st) k with
+                   | None => Panic
+                   | Some s0 => Ok (pset (sstats st) k (set_s_tia s0 (s_tia s0 + tomint)))
+                   end
+                 else Ok (sstats st)) ;;
+          b5 <- (if b_brd b >? 0 then
+                   match zget (lends st) (b_lend b) with
+                   | None => Panic                            (* C10-F7 *)
+                   | Some l =>
+                       match zget (c_pools cfg) (l_pool l) with
+                       | None => Panic
+                       | Some pin => send b4 (p_mod pout) (p_mod pin) (b_brd_denom b) (b_brd b)
+                       end
+                   end
+                 else Ok b4) ;;
+          let S1 := match pget S0 k with
+                    | Some s1 => pset S0 k (set_s_bids s1 (remove_sorted bid (s_bids s1)))
+                    | None => S0
+                    end in
+          let L1 := match zget (lends st) (b_lend b) with
+                    | Some l => zset (lends st) (b_lend b)
+                                     (upd_lend l (l_in l) (l_avail l) (l_rewards l) (l_tracker l) (remove_sorted bid (l_bids l)))
+                    | None => lends st
+                    end in
+          Ok (with_bank (with_books st L1 (zdel (borrows st) bid) S1) b5)
+      end end
+  end.
+
+(* ---------- generation 1: x/liquidation MsgLiquidateBorrow (still routed) ---------- *)
+(* CreateLockedBorrow + UpdateLockedBorrows of x/liquidation/keeper.  ENV (measured on the real run): the result
+   d of everything that is not lend bookkeeping - interest for liquidation, the liquidation decision, the sell-off
+   arithmetic, the generation-1 auction activator (0 not liquidatable: NOTHING is written, not even the interest;
+   1 handed over; 2 error; 3 panic) - the interest added, and the three amounts of the sell-off: coins sent to
+   the generation-1 auction module account (sell-off + bonus), penalty sent to the reserve, total deduction.
+   As coded: the position is flagged and keeps the part of its collateral that was not deducted; the deduction
+   leaves the lend record's AmountIn and TotalLend (capped by the collateral) and its cTokens are burnt (the
+   UNCAPPED deduction); the lend record is never deleted; TotalBorrowed is NOT touched although the position is
+   now under liquidation (the block-hook variant LiquidateBorrows subtracts the principal, and CreteNewBorrow
+   adds it back when an unsold position returns) - finding C08-F4. *)
+Definition AUCTION1 : Z := 201.                               (* module account "auctionV1" *)
+Definition hand_over_v1 (cfg : config) (st : state) (bid d dint toauc pen ded : Z) : outcome state :=
+  match zget (borrows st) bid with
+  | None => Err 9
+  | Some b0 =>
+      if b_liq b0 then Err 23 else
+      match zget (lends st) (b_lend b0) with
+      | None => Err 1
+      | Some l =>
+          if d =? 3 then Panic else
+          if is_killed st (l_app l) then Err 32 else
+          if d =? 2 then Err 44 else
+          if negb (d =? 1) then Ok st else
+          match zget (c_pairs cfg) (b_pair b0) with
+          | None => Panic
+          | Some pr =>
+          match zget (c_pools cfg) (l_pool l), cdenom_of cfg (pr_in pr) with
+          | Some pin, Some cden =>
+              b1 <- send (bnk st) (p_mod pin) AUCTION1 (pr_in pr) toauc ;;
+              b2 <- send b1 (p_mod pin) RESERVE (pr_in pr) pen ;;
+              let take := if ded >=? b_in b0 then b_in b0 else ded in
+              S1 <- upd_lend_stats (sstats st) (l_pool l, l_asset l) (- take) ;;
+              b3 <- burn b2 (p_mod pin) cden ded ;;
+              let b := upd_borrow b0 (b_in b0 - take) (b_out b0) (b_brd b0) (b_int b0 + dint) (b_res b0) true in
+              let l1 := upd_lend l (l_in l - take) (l_avail l) (l_rewards l) (l_tracker l) (l_bids l) in
+              Ok (mkSt (zset (lends st) (b_lend b0) l1) (zset (borrows st) bid b) S1 b3 (lctr st) (bctr st) (prices st)
+                       (killed st) (depr st) (bid :: v1 st))
+          | _, _ => Panic
+          end end
+      end
+  end.
+
 (* ---------- messages (ValidateBasic, then the handler) ---------- *)
 Inductive op :=
 | OLend (user asset denom amt poolid app ipb : Z)
@@ -934,7 +1167,15 @@ Inductive op :=
 | OBorrowAlt (user asset poolid din ain pid : Z) (stable : bool) (dout aout app ipb : Z) (e1 e2 : biter)
 | OCalc (user : Z) (es : list biter) (ipbs : list Z)
 | OSetPrice (asset : Z) (p : option Z)             (* oracle: the active Twa, or none *)
-| OHandOver (bid d dint : Z).                      (* MsgLiquidateInternalKeeper{LiqType 1, Id bid} *)
+| OHandOver (bid d dint : Z)                       (* MsgLiquidateInternalKeeper{LiqType 1, Id bid} *)
+| OAucBid (bid d : Z)                              (* MsgPlaceMarketBid on the auction of position bid that does not close it *)
+| OAucClose (bid target owner back : Z)            (* the closing MsgPlaceMarketBid: MsgCloseDutchAuctionForBorrow *)
+| ORepayWithdraw (user bid : Z) (e : biter) (ipb : Z)
+| OFundMod (user poolid asset denom amt : Z)       (* MsgFundModuleAccounts *)
+| OFundReserve (user asset denom amt : Z)          (* MsgFundReserveAccounts *)
+| OKill (admin : bool) (app : Z) (on : bool)       (* esm MsgKillSwitch{AppId, BreakerEnable} *)
+| ODepreciate (poolid : Z)                         (* governance: AddPoolDepreciateProposal for one pool *)
+| OHandOverV1 (bid d dint toauc pen ded : Z).      (* x/liquidation MsgLiquidateBorrow{BorrowId bid} (generation 1) *)
 
 Definition step (cfg : config) (st : state) (o : op) : outcome state :=
   match o with
@@ -958,8 +1199,29 @@ Definition step (cfg : config) (st : state) (o : op) : outcome state :=
   | OCalc u es ipbs => calc_all cfg st u es ipbs
   | OSetPrice a p =>
       Ok (mkSt (lends st) (borrows st) (sstats st) (bnk st) (lctr st) (bctr st)
-               (match p with Some v => zset (prices st) a v | None => zdel (prices st) a end))
+               (match p with Some v => zset (prices st) a v | None => zdel (prices st) a end) (killed st) (depr st) (v1 st))
   | OHandOver bid d dint => if bid =? 0 then Err 100 else hand_over cfg st bid d dint
+  | OAucBid bid d => auc_bid st bid d
+  | OAucClose bid target owner back => auc_close cfg st bid target owner back
+  | ORepayWithdraw u bid e ipb => if bid =? 0 then Err 100 else repay_withdraw cfg st u bid e ipb
+  | OFundMod u p a d amt => if (p =? 0) || (a =? 0) || (amt <=? 0) then Err 100 else fund_mod cfg st u p a d amt
+  | OFundReserve u a d amt => if (a =? 0) || (amt <=? 0) then Err 100 else fund_reserve cfg st u a d amt
+  | OKill admin app on =>
+      (* esm msg server: the sender is one of the admins; SetKillSwitchData: the app exists *)
+      if negb admin then Err 60 else
+      match zget (c_apps cfg) app with
+      | None => Err 61
+      | Some _ =>
+          let ks := filter (fun x => negb (x =? app)) (killed st) in
+          Ok (mkSt (lends st) (borrows st) (sstats st) (bnk st) (lctr st) (bctr st) (prices st) (if on then app :: ks else ks) (depr st) (v1 st))
+      end
+  | ODepreciate p =>
+      (* AddPoolDepreciate: the pool exists; the record is appended (IsPoolDepreciated looks at the pool id only) *)
+      match zget (c_pools cfg) p with
+      | None => Err 2
+      | Some _ => Ok (mkSt (lends st) (borrows st) (sstats st) (bnk st) (lctr st) (bctr st) (prices st) (killed st) (depr st ++ [p]) (v1 st))
+      end
+  | OHandOverV1 bid d dint toauc pen ded => if bid =? 0 then Err 100 else hand_over_v1 cfg st bid d dint toauc pen ded
   end.
 
 (* baseapp: the writes of a message are kept only when it returns no error and does not panic *)
@@ -1149,9 +1411,14 @@ Definition pool_rule (cfg : config) (st : state) (o : op) : Prop :=
   | _ => True
   end.
 
-Definition pledged_rule (st : state) (o : op) (st' : state) : Prop :=
+Definition pledged_rule (cfg : config) (st : state) (o : op) (st' : state) : Prop :=
   match o with
   | OWithdraw _ lid _ amt _ => holds_C08_pledged st st' lid amt = true
+  | ORepayWithdraw u bid e _ =>
+      (* RepayWithdraw withdraws exactly the collateral its CloseBorrow half released: [st1] is the state
+         after that half, in which the position is closed and its collateral is available again *)
+      exists st1 b0, zget (borrows st) bid = Some b0 /\ close_borrow cfg st u bid e = Ok st1 /\
+                     zget (borrows st1) bid = None /\ (holds_C08_pledged st1 st' (b_lend b0) (b_in b0) = true)
   | OCloseLend _ lid _ =>
       zget (lends st') lid = None /\
       match zget (lends st) lid with Some l0 => holds_C08_pledged st st' lid (l_avail l0) = true | None => False end
@@ -1195,14 +1462,83 @@ Definition kf_C08_2 (st : state) (o : op) : bool :=
       end
   | _ => false
   end.
-(* a history none of whose messages falls into the class *)
+(* known-finding class 4 (C08-F4): a generation-1 hand-over (x/liquidation MsgLiquidateBorrow) that goes through:
+   the position is flagged but its principal stays in the published totals borrowed *)
+Definition kf_C08_4 (st : state) (o : op) : bool :=
+  match o with
+  | OHandOverV1 j d _ _ _ _ => (d =? 1) && match zget (borrows st) j with Some b => negb (b_liq b) | None => false end
+  | _ => false
+  end.
+Definition kf_books (st : state) (o : op) : bool := kf_C08_2 st o || kf_C08_4 st o.
+(* a history none of whose messages falls into a class that breaks the book identities *)
 Fixpoint clean (cfg : config) (st : state) (ops : list op) : Prop :=
   match ops with
   | [] => True
-  | o :: r => kf_C08_2 st o = false /\ clean cfg (apply_op cfg st o) r
+  | o :: r => kf_books st o = false /\ clean cfg (apply_op cfg st o) r
   end.
 Fixpoint cleanb (cfg : config) (st : state) (ops : list op) : bool :=
   match ops with
   | [] => true
-  | o :: r => negb (kf_C08_2 st o) && cleanb cfg (apply_op cfg st o) r
+  | o :: r => negb (kf_books st o) && cleanb cfg (apply_op cfg st o) r
   end.
+
+(* ------------------------------------------------------------------------------------------ *)
+(* The close of a handed-over position (generation-2 auction): what the pools receive against   *)
+(* what the close books and forwards.                                                          *)
+
+(* the coins of asset [a] held by all lending pools together (bridged transit coins move between pools) *)
+Definition ptotal (cfg : config) (b : bank) (a : Z) : Z :=
+  fold_right (fun ip acc => balance b (p_mod (snd ip)) a + acc) 0 (c_pools cfg).
+Definition tia_of (st : state) (k : Z * Z) : Z := match pget (sstats st) k with Some s => s_tia s | None => 0 end.
+
+(* the runner checks the auction's target debt (an ENV value of the close) against the hand-over's formula *)
+Definition holds_C08_target (cfg : config) (pre : state) (j target : Z) : bool :=
+  match zget (borrows pre) j with
+  | Some b => match target_of cfg b with Some t => t =? target | None => false end
+  | None => false
+  end.
+
+(* the close rule: the pools' holdings of the asset out grow by at least the principal that returns (it left
+   the published totals borrowed at the hand-over) plus what the close adds to TotalInterestAccumulated -
+   the coins lenders will be paid from *)
+Definition holds_C08_close (cfg : config) (pre post : state) (j : Z) : bool :=
+  match zget (borrows pre) j with
+  | None => false
+  | Some b =>
+      match zget (c_pairs cfg) (b_pair b) with
+      | None => false
+      | Some pr =>
+          let k := (pr_out_pool pr, pr_out pr) in
+          b_out b + (tia_of post k - tia_of pre k) <=? ptotal cfg (bnk post) (pr_out pr) - ptotal cfg (bnk pre) (pr_out pr)
+      end
+  end.
+
+(* known-finding class 3 (C08-F3): the close books or forwards more than the auction recovered.  The
+   target debt is principal + ordinary penalty; the close (a) forwards the reserve share of the ACCRUED
+   INTEREST to the reserve and mints cTokens / raises TotalInterestAccumulated for the rest of it although
+   no interest was recovered, (b) forwards the E-MODE penalty although the ordinary one was collected *)
+Definition kf_C08_3 (cfg : config) (st : state) (o : op) : bool :=
+  match o with
+  | OAucClose j _ _ _ =>
+      match zget (borrows st) j with
+      | Some b =>
+          b_liq b &&
+          match zget (c_pairs cfg) (b_pair b) with
+          | Some pr =>
+              match zget (c_rates cfg) (pr_in pr) with
+              | Some rin => (dtrunc_int (b_res b) >? 0) || (dtrunc_int (b_int b - b_res b) >? 0) || (pr_emode pr && (r_epen rin >? r_pen rin))
+              | None => false
+              end
+          | None => false
+          end
+      | None => false
+      end
+  | _ => false
+  end.
+
+(* pool module accounts are pairwise different and none of them is the reserve or the auction account *)
+Definition pools_wfb (cfg : config) : bool :=
+  let ms := map (fun ip => p_mod (snd ip)) (c_pools cfg) in
+  (fix nodup (l : list Z) : bool := match l with [] => true | x :: r => negb (existsb (Z.eqb x) r) && nodup r end) ms &&
+  negb (existsb (Z.eqb RESERVE) ms) && negb (existsb (Z.eqb AUCTION) ms) &&
+  forallb (fun ir => (0 <=? r_pen (snd ir)) && (0 <=? r_epen (snd ir))) (c_rates cfg).
